@@ -371,7 +371,14 @@ Comb(mc, w) == [i \in 1..mc.m |-> [j \in 1..mc.n |->
 MatOf(mc) == Comb(mc, mc.c)
 SvtNum(mc) == Comb(mc, [l \in 1..RankOf(mc) |-> SgnI(mc.c[l]) * PosI(AbsI(mc.c[l]) * SvdN(mc) * mc.q - mc.p)])
 SvtDen(mc) == SvdN(mc) * mc.q
-ProcNum(mc) == Comb(mc, [l \in 1..RankOf(mc) |-> SgnI(mc.c[l])])
+\* For rank-deficient M (some c_l = 0) the nearest matrices with orthonormal columns/rows are a SET: the singular
+\* pairs of the zero singular values may be completed in any orthonormal way.  ProcNum is the completion with sign +1;
+\* the set itself is characterised by  Q^T Q = I (Q Q^T = I when wide)  and  <Q, M> = nuclear norm of M.
+SgnP(x) == IF x < 0 THEN -1 ELSE 1
+ProcNum(mc) == Comb(mc, [l \in 1..RankOf(mc) |-> SgnP(mc.c[l])])
+\* the partial isometry that drops the zero singular pairs -- NOT an allowed answer unless M has full rank
+ProcPartialNum(mc) == Comb(mc, [l \in 1..RankOf(mc) |-> SgnI(mc.c[l])])
+NuclearNorm(mc) == SvdN(mc) * SumQ(AbsS(mc.c))
 ProcDen(mc) == SvdN(mc)
 FullRank(mc) == \A l \in 1..RankOf(mc) : mc.c[l] # 0
 Frob2(A) == SumQ([i \in 1..Len(A) |-> Norm2(A[i])])
@@ -409,7 +416,11 @@ MatOK(mc) ==
          /\ mc.m * mc.n <= SvdCompSize => \A ox \in {SvtObjX(mc)} : \A y \in SameShape(mc, (-2)..2) : ox <= SvtObjY(mc, M, y)
     /\ mc.op = "procrustes" =>
          \A P \in {ProcNum(mc)} : \A pm \in {FrobDot(P, M)} :
-         /\ FullRank(mc)
+         \* rank-deficient input: dropping the zero singular pairs loses orthonormality (|Q|_F^2 = rank < min(m, n)),
+         \* although it keeps <Q, M> = nuclear norm
+         /\ ~FullRank(mc) => /\ Frob2(ProcPartialNum(mc)) < r * N * N
+                             /\ FrobDot(ProcPartialNum(mc), M) = pm
+         /\ pm = N * NuclearNorm(mc)
          \* orthonormal columns (m >= n) or rows (m <= n)
          /\ mc.m >= mc.n => \A a, b \in 1..mc.n :
                 SumQ([i \in 1..mc.m |-> P[i][a] * P[i][b]]) = IF a = b THEN N * N ELSE 0
@@ -425,7 +436,7 @@ ValidMat(mc) == /\ <<mc.m, mc.n>> \in Shapes2
                 /\ mc.uf \in LeftFrames(mc.m) /\ mc.vf \in RightFrames(mc.n) /\ FramePairOK(mc.uf, mc.vf)
                 /\ mc.c \in Coefs(RankOf(mc), (-2)..2)
                 /\ IF mc.op = "svt" THEN <<mc.p, mc.q>> \in SvtParams
-                   ELSE mc.op = "procrustes" /\ mc.p = 0 /\ mc.q = 1 /\ FullRank(mc)
+                   ELSE mc.op = "procrustes" /\ mc.p = 0 /\ mc.q = 1
 
 -----------------------------------------------------------------------------
 (* Array-valued threshold (operator "l1arr"): configuration [op, p = 0, q, k = 0, dec = FALSE, v, t].            *)
